@@ -76,6 +76,9 @@ impl BBSplusPublicKey {
     fn from_bytes_uncompressed(bytes: &[u8; G2Affine::UNCOMPRESSED_BYTES]) -> Result<Self, Error> {
         let g2 =
             parse_g2_projective_uncompressed(bytes).map_err(|_| Error::KeyDeserializationError)?;
+        if g2.is_identity().into() {
+            return Err(Error::KeyDeserializationError);
+        }
         Ok(Self(g2))
     }
 
@@ -100,12 +103,12 @@ impl BBSplusPublicKey {
     ///
     /// * `Result<Self, Error>` - A result containing the `BBSplusPublicKey` or an error.
     pub fn from_bytes(bytes: &[u8]) -> Result<Self, Error> {
-        let g2 = parse_g2_projective_compressed(
-            bytes
-                .get(0..G2Affine::COMPRESSED_BYTES)
-                .ok_or(Error::KeyDeserializationError)?,
-        )
-        .map_err(|_| Error::KeyDeserializationError)?;
+        // octets_to_pubkey: exactly one compressed G2 point, different from the identity
+        let g2 = parse_g2_projective_compressed(bytes)
+            .map_err(|_| Error::KeyDeserializationError)?;
+        if g2.is_identity().into() {
+            return Err(Error::KeyDeserializationError);
+        }
         Ok(Self(g2))
     }
 }
